@@ -6,9 +6,11 @@
    is off by at most 5e-19 <= ratio / 2000, so a converted divisor keeps at
    least 99.9 % of its magnitude and stays non-zero. *)
 From Coq Require Import Reals ZArith Lra Psatz Bool Lia List.
+From Flocq Require Import Core.Raux.
 From QV Require Import Rt.Prelude Rt.Amount Rt.Quantity Gen.Prefixes Gen.Kernels Amount.DecModel Amount.Dec.
 From QV Require Amount.Laws.
-From QV Require Import Amount.DecAcc Proofs.Laws Proofs.Kernel Proofs.AccDec.
+From QV Require Import Amount.DecAcc Proofs.Laws Proofs.Kernel Proofs.C09 Proofs.Derived Proofs.AccDec.
+From QV Require Proofs.C13.
 Import Amount.Laws.
 Local Open Scope R_scope.
 
@@ -152,3 +154,115 @@ Proof.
   exists c. split; assumption.
 Qed.
 End Instance.
+
+(** * derived products and quotients inside the envelope *)
+(** an operation of the decimal type that returns a value while its exact result is below 10^19 *)
+Definition dop_total (op : dec -> dec -> res dec) (rop : R -> R -> R) (okr : dec -> Prop) : Prop :=
+  forall x y, dfit x -> dfit y -> okr y -> Rabs (rop (dval x) (dval y)) < big -> exists z, op x y = Ok z.
+
+Lemma mul_dop_total : dop_total dec_mul Rmult (fun _ => True).
+Proof. intros x y [Hx _] [Hy _] _ B. apply dec_mul_total_R; assumption. Qed.
+Lemma div_dop_total : dop_total dec_div Rdiv (fun y => dval y <> 0).
+Proof. intros x y [Hx Cx] [Hy Cy] H0 B. apply dec_div_total_R; assumption. Qed.
+
+Section DerivedEnv.
+Context (op : dec -> dec -> res dec) (rop : R -> R -> R) (okr : dec -> Prop).
+Hypothesis Hrel : dop_rel op rop okr.
+Hypothesis Htot : dop_total op rop okr.
+Context (R0 : QFull DEC).
+Hypothesis Hfit : forall m, q_fit R0 m = HasRefUnit__fit R0 m.
+Hypothesis Href : In (u_ref_unit R0) (u_iter R0).
+Variables su sv a b : dec.
+Hypotheses (Fu : dfit su) (Fv : dfit sv) (Fa : dfit a) (Fb : dfit b) (Okv : okr sv) (Okb : okr b).
+Notation AB := (rop (dval a) (dval b)).
+Notation SC := (rop (dval su) (dval sv)).
+(** the combined scale, the combined amount and the result in reference units are in range ... *)
+Hypothesis Bsc : Rabs SC <= env_hi.
+Hypothesis Bab : Rabs AB <= env_hi.
+Hypothesis Bm : Rabs (AB * SC) <= env_hi.
+(** ... and so is the result expressed in any unit of the result quantity, whose scales are at least 1e-15 *)
+Hypothesis Hunits : forall w, In w (u_iter R0) ->
+  dfit (u_scale R0 w) /\ env_lo <= Rabs (dval (u_scale R0 w)) /\ Rabs (AB * SC / dval (u_scale R0 w)) <= env_hi.
+
+Theorem env_derived : exists z, @derived_nf DEC op R0 su sv a b = Ok z.
+Proof.
+  pose proof big_num as Eb. pose proof h18_num as Eh. unfold env_lo, env_hi in *.
+  unfold derived_nf.
+  destruct (Htot su sv Fu Fv Okv ltac:(lra)) as [sc Esc]. rewrite Esc. cbn [bind].
+  destruct (Hrel su sv sc (proj1 Fu) (proj1 Fv) Esc) as (Hsc & _ & Dsc & _).
+  destruct (Htot a b Fa Fb Okb ltac:(lra)) as [t Et].
+  destruct (Hrel a b t (proj1 Fa) (proj1 Fb) Et) as (Ht & _ & Dt & _).
+  destruct (HasRefUnit_unit_from_scale R0 sc) as [w|]; rewrite Et; cbn [bind]; [eexists; reflexivity|].
+  cbn [a_mul DEC].
+  (* |t * sc| <= |AB SC| + h (|AB| + |SC|) + h^2 *)
+  set (x := dval t - AB) in *. set (y := dval sc - SC) in *.
+  assert (Et' : dval t = AB + x) by (unfold x; ring). assert (Esc' : dval sc = SC + y) by (unfold y; ring).
+  apply Rabs_le_inv in Dt, Dsc.
+  assert (Bts : Rabs (dval t * dval sc - AB * SC) <= / 5).
+  { rewrite Et', Esc'. replace ((AB + x) * (SC + y) - AB * SC) with (AB * y + x * SC + x * y) by ring.
+    apply Rabs_le_inv in Bab, Bsc. apply Rabs_le. rewrite Eh in *. split; nra. }
+  assert (Btot : Rabs (dval t * dval sc) < big).
+  { replace (dval t * dval sc) with ((dval t * dval sc - AB * SC) + AB * SC) by ring. eapply Rle_lt_trans; [apply Rabs_triang|]. lra. }
+  destruct (dec_mul_total_R _ _ Ht Hsc Btot) as [m Em]. rewrite Em. cbn [bind].
+  destruct (dec_mul_acc _ _ _ Ht Hsc Em) as (Hm & Dm & _).
+  assert (Bmm : Rabs (dval m - AB * SC) <= / 4).
+  { replace (dval m - AB * SC) with ((dval m - dval t * dval sc) + (dval t * dval sc - AB * SC)) by ring.
+    eapply Rle_trans; [apply Rabs_triang|]. rewrite Eh in Dm. lra. }
+  rewrite Hfit, fit_spec. destruct (fit_unit_total R0 Href m) as [w Ew]. rewrite Ew. cbn [a_div DEC].
+  destruct (fit_unit_in_registry R0 m w Ew) as [_ Hin]. destruct (Hunits w Hin) as ([Hw Cw] & Lw & Bw).
+  assert (Pw : 0 < Rabs (dval (u_scale R0 w))) by lra.
+  assert (Hw0 : dval (u_scale R0 w) <> 0) by (intros E0; rewrite E0, Rabs_R0 in Pw; lra).
+  assert (Fm : dfit m).
+  { apply dfit_of_bound; [exact Hm|]. replace (dval m) with ((dval m - AB * SC) + AB * SC) by ring. eapply Rle_lt_trans; [apply Rabs_triang|]. lra. }
+  assert (Bq : Rabs (dval m / dval (u_scale R0 w)) < big).
+  { replace (dval m / dval (u_scale R0 w)) with ((dval m - AB * SC) / dval (u_scale R0 w) + AB * SC / dval (u_scale R0 w)) by (field; exact Hw0).
+    eapply Rle_lt_trans; [apply Rabs_triang|].
+    assert (Rabs ((dval m - AB * SC) / dval (u_scale R0 w)) <= / 4 * 1000000000000000).
+    { unfold Rdiv. rewrite Rabs_mult, Rabs_inv. apply Rmult_le_compat; [apply Rabs_pos|apply Rlt_le, Rinv_0_lt_compat; exact Pw|exact Bmm|].
+      rewrite <- (Rinv_inv 1000000000000000). apply Rinv_le_contravar; [lra|exact Lw]. }
+    lra. }
+  destruct (dec_div_total_R _ _ Hm Hw (proj2 Fm) Cw Hw0 Bq) as [q Eq]. rewrite Eq. cbn [bind]. eexists; reflexivity.
+Qed.
+End DerivedEnv.
+
+(** * rate operations inside the envelope: after the ratio value / (1 unit) (a cross-unit
+      division, [env_div]) one division and one multiplication *)
+Lemma env_div_then_mul (x1 p t : dec) :
+  dfit x1 -> dfit p -> dec_ok t -> dval p <> 0 ->
+  Rabs (dval x1 / dval p) <= env_hi -> Rabs (dval t) <= env_hi -> Rabs (dval t * (dval x1 / dval p)) <= env_hi ->
+  exists x2 x3, dec_div x1 p = Ok x2 /\ dec_mul x2 t = Ok x3.
+Proof.
+  intros [H1 C1] [Hp Cp] Ht Hp0 B1 Bt B3. pose proof big_num as Eb. pose proof h18_num as Eh. unfold env_hi in *.
+  destruct (dec_div_total_R _ _ H1 Hp C1 Cp Hp0 ltac:(lra)) as [x2 E2].
+  destruct (dec_div_acc _ _ _ H1 Hp E2) as (H2 & _ & D2).
+  assert (B : Rabs (dval x2 * dval t) < big).
+  { replace (dval x2 * dval t) with ((dval x2 - dval x1 / dval p) * dval t + dval t * (dval x1 / dval p)) by ring.
+    eapply Rle_lt_trans; [apply Rabs_triang|]. rewrite Rabs_mult. pose proof (Rabs_pos (dval t)). rewrite Eh in D2. nra. }
+  destruct (dec_mul_total_R _ _ H2 Ht B) as [x3 E3]. exists x2, x3. split; assumption.
+Qed.
+
+Theorem env_rate_mul (TQ : QBase DEC) (PQ : QFull DEC) (r : rate DEC) (q : Qt PQ) (x1 : dec) :
+  q_div PQ q (q_new PQ (a_one DEC) (rt_per_unit r)) = Ok x1 ->
+  dfit x1 -> dfit (rt_per_unit_multiple r) -> dec_ok (rt_term_amount r) -> dval (rt_per_unit_multiple r) <> 0 ->
+  Rabs (dval x1 / dval (rt_per_unit_multiple r)) <= env_hi -> Rabs (dval (rt_term_amount r)) <= env_hi ->
+  Rabs (dval (rt_term_amount r) * (dval x1 / dval (rt_per_unit_multiple r))) <= env_hi ->
+  exists y, Rate_mul TQ PQ r q = Ok y /\ tmpl_Mul_Qty_Rate PQ TQ q r = Ok y.
+Proof.
+  intros E1 F1 Fp Ht Hp0 B1 Bt B3. destruct (Proofs.C13.rate_mul_kernel TQ PQ r q) as [-> ->].
+  unfold Proofs.C13.rate_mul_nf. rewrite E1. cbn [bind a_div a_mul DEC].
+  destruct (env_div_then_mul x1 _ _ F1 Fp Ht Hp0 B1 Bt B3) as (x2 & x3 & -> & E3). cbn [bind]. rewrite E3. cbn [bind].
+  eexists. split; reflexivity.
+Qed.
+
+Theorem env_qty_div_rate (TQ : QFull DEC) (PQ : QBase DEC) (q : Qt TQ) (r : rate DEC) (x1 : dec) :
+  q_div TQ q (q_new TQ (a_one DEC) (rt_term_unit r)) = Ok x1 ->
+  dfit x1 -> dfit (rt_term_amount r) -> dec_ok (rt_per_unit_multiple r) -> dval (rt_term_amount r) <> 0 ->
+  Rabs (dval x1 / dval (rt_term_amount r)) <= env_hi -> Rabs (dval (rt_per_unit_multiple r)) <= env_hi ->
+  Rabs (dval (rt_per_unit_multiple r) * (dval x1 / dval (rt_term_amount r))) <= env_hi ->
+  exists y, tmpl_Div_Qty_Rate TQ PQ q r = Ok y.
+Proof.
+  intros E1 F1 Ft Hp Ht0 B1 Bp B3. rewrite (Proofs.C13.qty_div_rate_kernel TQ PQ q r).
+  unfold Proofs.C13.qty_div_rate_nf. rewrite E1. cbn [bind a_div a_mul DEC].
+  destruct (env_div_then_mul x1 _ _ F1 Ft Hp Ht0 B1 Bp B3) as (x2 & x3 & -> & E3). cbn [bind]. rewrite E3. cbn [bind].
+  eexists. reflexivity.
+Qed.
